@@ -152,6 +152,43 @@ def structural(rep):
                 rep.fail('C19:Function.then.refuses', 'mismatched arities compose', '%r >> %r' % (a, b))
 
 
+def records_and_folds(rep):
+    """boxes whose several outputs come back as a tuple SUBCLASS (a namedtuple constructor used as the box function), and
+    functions placed side by side with the n-ary tensor (three or more operands in one call)"""
+    import collections
+    Pair = collections.namedtuple('Pair', 'first second')
+    Triple = collections.namedtuple('Triple', 'a b c')
+    pair, triple = Box('pair', 2, 2, Pair), Box('triple', 3, 3, lambda x, y, z: Triple(z, x, y))
+    dup = Box('dup', 1, 2, lambda x: Pair(x, repr(x)))
+    tagb = Box('tag', 1, 1, lambda x: 't' + repr(x))
+    Id = cartesian.Id
+    for d in (pair, pair @ Id(1), Id(1) @ pair, pair >> tagb @ tagb, dup >> pair, Id(1) @ dup >> triple, triple >> Id(1) @ pair,
+              cartesian.Swap(1, 1) >> pair >> cartesian.Swap(1, 1), dup @ dup >> Id(1) @ pair @ Id(1), cartesian.Copy(2) >> pair @ pair):
+        n = len(d.dom)
+        check(rep, d, [tuple(VALUES[(k + j) % len(VALUES)] for j in range(n)) for k in (0, 3, 5)])
+    # n-ary tensor of Functions
+    F = lambda b: cartesian.Function(len(b.dom), len(b.cod), b.function)
+    inc, dbl, neg = Box('inc', 1, 1, lambda x: 'inc(%r)' % (x,)), Box('dbl', 1, 1, lambda x: 'dbl(%r)' % (x,)), Box('neg', 1, 1, lambda x: 'neg(%r)' % (x,))
+    mrg, unit, drop = Box('mrg', 2, 1, lambda x, y: 'mrg(%r, %r)' % (x, y)), Box('unit', 0, 1, lambda: 'u'), Box('drop', 1, 0, lambda x: ())
+    for ops in ((inc, dbl, neg), (inc, dbl), (inc, mrg, dbl), (unit, inc, drop, dbl), (dbl, dbl, inc), (mrg, unit, neg, inc), (drop, drop, inc)):
+        n = sum(len(b.dom) for b in ops)
+        xs = tuple(VALUES[j % len(VALUES)] for j in range(n))
+        want = []
+        k = 0
+        for b in ops:
+            out = b.function(*xs[k:k + len(b.dom)])
+            want += list(out) if len(b.cod) != 1 else [out]
+            k += len(b.dom)
+        for nm, build in (('first.tensor(*rest)', lambda: F(ops[0]).tensor(*[F(b) for b in ops[1:]])),
+                          ('id(0).tensor(*all)', lambda: cartesian.Function.id(0).tensor(*[F(b) for b in ops])),
+                          ('nested @', lambda: __import__('functools').reduce(lambda a_, b_: a_ @ b_, [F(b) for b in ops]))):
+            inp = '%s of %s on %r' % (nm, [b.name for b in ops], xs)
+            rep.case(('nary', inp))
+            got = common.outcome(lambda: cartesian.tuplify(build()(*xs)))
+            if got[0] != 'ok' or (list(got[1]) != want and not (len(want) == 1 and got[1] == (want[0],))):
+                rep.fail('C19:Function.tensor.nary', 'got %r, side by side gives %r' % (got, want), inp)
+
+
 def run(tier, seed=0, shard=(0, 1)):
     max_boxes = 2 if tier == 'quick' else 3
     bs = atom_boxes()
@@ -168,4 +205,6 @@ def run(tier, seed=0, shard=(0, 1)):
         rep.sample(repr(d))
     if shard[0] == 0:
         structural(rep)
+    if shard[0] == 1 % shard[1]:
+        records_and_folds(rep)
     return rep.result()
